@@ -183,12 +183,14 @@ def parses(text):
         return False
 
 
-def eval_pack(items, scratch, timeout_s, mode="sym", env=None):
-    """items: list of (tag, eq AST, text).  returns {tag: (status, info)}"""
+def eval_pack(items, scratch, timeout_s, mode="sym", env=None, prefilter=True):
+    """items: list of (tag, eq AST, text).  returns {tag: (status, info)}.
+    prefilter: equations the grammar does not parse are set aside so that they do not take the whole pack with them;
+    the malformed equations are sent one per document WITHOUT it - there the refusal must come from the real pipeline"""
     out = {}
     todo = []
     for tag, eq, text in items:
-        if not parses(text):
+        if prefilter and not parses(text):
             out[tag] = ("refused", "rejected by the parser")
         else:
             todo.append((tag, eq, text))
@@ -295,7 +297,7 @@ def replay(case):
     scratch = tempfile.mkdtemp(prefix="c03-")
     try:
         if case.get("kind") == "unsupported":
-            r = eval_pack([("u", A, case["text"])], scratch, 0, "float", {})
+            r = eval_pack([("u", A, case["text"])], scratch, 0, "float", {}, prefilter=False)
             st = r["u"][0]
             if st == "value":
                 return True, "unsupported equation %r produced the value %r instead of failing" % (case["text"], r["u"][1][0])
@@ -469,7 +471,7 @@ def run(tier):
     uns = 0
     try:
         for tx in UNSUPPORTED:
-            r = eval_pack([("u", A, tx)], scratch, 10, "float", {})
+            r = eval_pack([("u", A, tx)], scratch, 10, "float", {}, prefilter=False)
             uns += 1
             if r["u"][0] == "value":
                 rep.candidate("unsupported:" + tx, {"kind": "unsupported", "text": tx}, "unsupported equation %r produced the value %r" % (tx, r["u"][1][0]))
